@@ -47,15 +47,31 @@ def table_loads(fn, table=TABLE):
     return out
 
 
-def raise_payload(fn, raise_stmt):
-    """(class, [resolved texts of the format arguments]) of `raise X("...".format(a, b, c))`"""
+def raise_payload(fn, raise_stmt, ix=None, mod=None):
+    """(class, [resolved texts of the values formatted into the message]) of `raise X("...".format(a, b, c))` / f-strings / `raise helper(...)`"""
+    from ..py import norm
     e = raise_stmt.exc
+    names = ix.module_globals(mod) if ix is not None and mod else None
+    if isinstance(e, ast.Call) and ix is not None:
+        r = common.make_inliner(ix)(e)
+        if r is not None and isinstance(r[0], ast.Call):
+            e2, f = r
+            # resolve the helper's arguments in the caller's frame first
+            cls = u(e2.func)
+            args = []
+            parts = norm.fmt_parts(e2.args[0]) if e2.args else None
+            for p in parts or []:
+                if p[0] == "expr":
+                    args.append(resolved_text(fn, p[1], raise_stmt))
+            return cls, args
     if not isinstance(e, ast.Call):
         return (u(e) if e is not None else None), []
     cls = u(e.func)
     args = []
-    if e.args and isinstance(e.args[0], ast.Call) and isinstance(e.args[0].func, ast.Attribute) and e.args[0].func.attr == "format":
-        args = [resolved_text(fn, a, raise_stmt) for a in e.args[0].args]
+    parts = norm.fmt_parts(e.args[0], names) if e.args else None
+    for p in parts or []:
+        if p[0] == "expr":
+            args.append(resolved_text(fn, p[1], raise_stmt))
     return cls, args
 
 
@@ -98,7 +114,7 @@ def c11_1(rep, ix):
             ok = False
             detail = ""
             for r in raises:
-                cls, args = raise_payload(fn, r)
+                cls, args = raise_payload(fn, r, ix, f.mod)
                 has_line = any(a.endswith(".line") for a in args)
                 has_col = any(a.endswith(".column") or a.endswith(".column + 1") for a in args)
                 has_name = any(a == key for a in args)
@@ -170,7 +186,7 @@ def c11_2(rep, ix, G):
         for n in walk_shallow(fn):
             if isinstance(n, ast.If) and "invalid()" in u(n.test):
                 for r in [x for x in ast.walk(n) if isinstance(x, ast.Raise)]:
-                    cls, args = raise_payload(fn, r)
+                    cls, args = raise_payload(fn, r, ix, f.mod)
                     ok = cls == "BlackbirdSyntaxError" and any(a.endswith(".line") for a in args) and any(a.endswith(".column") for a in args) and any("name().getText()" in a for a in args)
                     rep.check(ok, R, ix.site(f, r), "%s: reserved-name error is a BlackbirdSyntaxError carrying line, column and the name" % q.split(".")[-1], "raises %s with %s" % (cls, args),
                               key="%s|payload|%s" % (q, " ".join(u(r).split())[:50]))
